@@ -1,15 +1,18 @@
 import SgVerif.C29.Lemmas
+import SgVerif.C29.LemmasBcast
+import SgVerif.C29.LemmasPair
+import SgVerif.C29.LemmasReduce
 /-
 C29 — Every collective algorithm computes the MPI result.  Property theorems.
 
 (A) theorems on the SPEC (Model.lean §Spec), for every communicator size, count, buffers, and every operator that is
     associative (+ commutative where stated);
-(B) schedule theorems: the round-based models of allreduce-rdb (incl. its non-power-of-two pre/post phase) and of
-    allgather-ring compute the spec's result for EVERY communicator size and rank (`allreduce_rdb_eq_spec`,
-    `allgather_ring_eq_spec`).
-    NOT proved (modelled in Model.lean and compared with the library on the grid only): bcast binomial_tree,
-    alltoall pair.  The ≈180 other selectable algorithms are not modelled at all: they are tied to the
-    spec by the correspondence only.
+(B) schedule theorems: the round-based models of allreduce-rdb (incl. its non-power-of-two pre/post phase),
+    allgather-ring, bcast binomial_tree (= the default bcast), alltoall pair, reduce flat_tree and reduce binomial
+    compute the spec's result for EVERY communicator size, root and rank (`allreduce_rdb_eq_spec`,
+    `allgather_ring_eq_spec`, `bcast_binomial_eq_spec`, `alltoall_pair_eq_spec`, `reduce_flat_tree_eq_spec`,
+    `reduce_binomial_eq_spec`).  The other selectable algorithms are not modelled: they are tied to the spec by the
+    correspondence only.
 -/
 namespace SgVerif.C29
 variable {α : Type}
@@ -214,6 +217,111 @@ theorem allgather_ring_eq_spec (bufs : Bufs α) (rank : Nat) (hr : rank < bufs.l
   · have h1 : (ringRounds bufs rank (bufs.length - 1) (setSlot (List.replicate bufs.length none) rank bufs[rank])).length
         = bufs.length := by rw [ringRounds_length]; simp [setSlot]
     rw [List.getElem?_eq_none (by omega), List.getElem?_eq_none (by simp; omega)]
+
+/-- **binomial-tree broadcast (bcast-binomial-tree.cpp, also `bcast__default`) = the spec, for every communicator size
+and every root**: after the rounds at masks `2^(K-1) … 1` every rank holds the root's buffer.  (Every posted receive is
+matched by the send of the model's `sendsAt` test, which is proved to succeed: `sendsAt_parent`.) -/
+theorem bcast_binomial_eq_spec (bufs : Bufs α) (root : Nat) (hroot : root < bufs.length) :
+    some (bcastBinomial bufs.length root bufs[root]) = bcast root bufs := by
+  unfold bcast bcastBinomial
+  rw [List.getElem?_eq_getElem hroot, bcastBinomialRel_eq]
+  simp only [Option.map_some, Option.some.injEq, everywhere]
+  apply List.map_congr_left
+  intro r hr
+  have hrn : r < bufs.length := List.mem_range.mp hr
+  rw [getD_map_range]
+  split <;> omega
+
+/-- the same, rank by rank -/
+theorem bcast_binomial_rank (np root rank : Nat) (v : α) (hroot : root < np) (hr : rank < np) :
+    (bcastBinomial np root v)[rank]? = some (some v) := by
+  unfold bcastBinomial
+  rw [bcastBinomialRel_eq]
+  simp only [List.getElem?_map, List.getElem?_range hr, Option.map_some]
+  rw [getD_map_range]
+  split <;> omega
+
+/-- non-vacuity: 6 ranks, root 4 -/
+example : bcastBinomial 6 4 'x' = List.replicate 6 (some 'x') := by decide
+
+/-- **pairwise-exchange alltoall (alltoall-pair.cpp) = the spec, for every power-of-two communicator size** (the code
+refuses the other sizes, and so does the model: `alltoall_pair_refuses`), every rank, every block size: the slots
+received by `rank` are block `rank` of every rank's send buffer, i.e. `rank`'s receive buffer of `MPI_Alltoall`. -/
+theorem alltoall_pair_eq_spec (c : Nat) (bufs : Bufs α) (res : Res α) (rank : Nat) (hp : isPow2 bufs.length = true)
+    (hr : rank < bufs.length) (h : alltoall c bufs = some res) :
+    ((alltoallPair (bufs.map (chunks c bufs.length)) rank).bind allSome).map (fun row => some row.flatten) = res[rank]? := by
+  rw [alltoall_block c bufs res rank hr h]
+  have hrow : ∀ row ∈ bufs.map (chunks c bufs.length), rank < row.length := by
+    intro row hrow
+    obtain ⟨b, _, rfl⟩ := List.mem_map.mp hrow
+    rw [chunks_length]; exact hr
+  have hb := alltoallPair_blocks (bufs.map (chunks c bufs.length)) rank (by simpa using hp) hrow (by simpa using hr)
+  rw [hb, Option.bind_some, allSome_map_some]
+  simp [List.filterMap_map, Function.comp_def]
+
+theorem alltoall_pair_refuses (blocks : List (List (List α))) (rank : Nat) (hp : isPow2 blocks.length = false) :
+    alltoallPair blocks rank = none := by
+  simp [alltoallPair, hp]
+
+/-- non-vacuity: 4 ranks, 1 cell per block; and a refused size -/
+example : alltoallPair [[[1], [2], [3], [4]], [[5], [6], [7], [8]], [[9], [10], [11], [12]], [[13], [14], [15], [16]]] 2
+    = some [some [3], some [7], some [11], some [15]] := by decide
+example : alltoallPair [[[1], [2], [3]], [[4], [5], [6]], [[7], [8], [9]]] 1 = none := by decide
+
+/-- **flat-tree reduce (reduce-flat-tree.cpp) = the spec, for every communicator size and root**: the root computes
+`x₀ ⊕ (x₁ ⊕ (… ⊕ x_{np-1}))`; associativity only. -/
+theorem reduce_flat_tree_eq_spec (op : α → α → α) (hA : ∀ a b c, op (op a b) c = op a (op b c)) (x : Nat → List α)
+    (np root : Nat) (hnp : 1 ≤ np) (hroot : root < np) :
+    some (onlyAt np root (reduceFlatTree (zipOp op) x np)) = reduce op root ((List.range np).map x) := by
+  obtain ⟨n, rfl⟩ : ∃ n, np = n + 1 := ⟨np - 1, by omega⟩
+  unfold reduce
+  simp only [List.length_map, List.length_range, hroot, if_true]
+  rw [reduceAll_range, reduceFlatTree_eq (zipOp op) (zipOp_assoc op hA)]
+  rfl
+
+/-- non-vacuity: 5 ranks, `-`-free associative operator `+` -/
+example : reduceFlatTree (zipOp (· + ·)) (fun r => [(r : Int), 1]) 5 = [10, 5] := by decide
+
+/-- **binomial-tree reduce (reduce-binomial.cpp) = the spec, for every communicator size and root.**
+`comm` is the operator's `is_commutative()` flag: when it is set the tree is rooted at `root` and the code applies
+`received ⊕ mine` (the result is the fold of a rotation of the ranks, with swapped operands: commutativity needed and
+assumed — `hC`); when it is not set the tree is rooted at rank 0, the code applies `mine ⊕ received`, and associativity
+alone gives the rank-order fold. -/
+theorem reduce_binomial_eq_spec (op : α → α → α) (hA : ∀ a b c, op (op a b) c = op a (op b c)) (comm : Bool)
+    (hC : comm = true → ∀ a b, op a b = op b a) (x : Nat → List α) (np root : Nat) (hnp : 1 ≤ np) (hroot : root < np) :
+    some (onlyAt np root (reduceBinomial (zipOp op) comm x np root)) = reduce op root ((List.range np).map x) := by
+  obtain ⟨n, rfl⟩ : ∃ n, np = n + 1 := ⟨np - 1, by omega⟩
+  unfold reduce
+  simp only [List.length_map, List.length_range, hroot, if_true]
+  have hK := log2up_spec (n + 1)
+  have hbin : reduceBinomial (zipOp op) comm x (n + 1) root =
+      segFold (zipOp op) (fun d => x ((d + (if comm = true then root else 0)) % (n + 1))) 0 n := by
+    unfold reduceBinomial
+    simp only
+    rw [binVal_eq_segFold (zipOp op) (zipOp_assoc op hA) comm
+      (fun h => zipOp_comm op (hC h)) _ (n + 1) (log2up (n + 1)) 0 (Nat.zero_mod _) (by omega)]
+    congr 1; omega
+  rw [hbin]
+  cases comm with
+  | false =>
+    have : segFold (zipOp op) (fun d => x ((d + (if false = true then root else 0)) % (n + 1))) 0 n
+        = segFold (zipOp op) x 0 n := by
+      apply segFold_congr
+      intro i _ hi
+      simp only [Bool.false_eq_true, if_false, Nat.add_zero]
+      rw [Nat.mod_eq_of_lt (by omega)]
+    rw [this, reduceAll_range]; rfl
+  | true =>
+    simp only [if_true]
+    have h1 := reduceAll_range op (fun d => x ((d + root) % (n + 1))) n
+    have hperm : ((List.range (n + 1)).map fun d => x ((d + root) % (n + 1))).Perm ((List.range (n + 1)).map x) := by
+      have := (rot_perm (n + 1) root hroot).map x
+      simpa [List.map_map, Function.comp_def] using this
+    rw [← reduceAll_perm op hA (hC rfl) _ _ hperm, h1]; rfl
+
+/-- non-vacuity: 6 ranks (not a power of two), root 4, both branches -/
+example : reduceBinomial (zipOp (· + ·)) true (fun r => [(r : Int), 1]) 6 4 = [15, 6] := by decide
+example : reduceBinomial (zipOp (· ++ ·)) false (fun r => [[r]]) 6 4 = [[0, 1, 2, 3, 4, 5]] := by decide
 
 /-- non-vacuity: 5 ranks -/
 example : allgatherRing [[1], [2], [3], [4], [5]] 3 = [some [1], some [2], some [3], some [4], some [5]] := by decide
